@@ -130,6 +130,36 @@ def C(d, n):
     return ("copy", d, n)
 
 
+def seam_overlap_streams(ring, maxlen, maxdist, lengths, ks_of, quick):
+    """distance-coded formats: command lists (one per case) that bring the output position to where a copy of length n from distance d
+    (d around n: the source runs into the bytes being written) has its source begin k bytes before the end of a ring of `ring`
+    bytes.  Filler = runs (distance 1) of the maximum length, cheap to code."""
+    out = []
+    for n in lengths:
+        for d in sorted(set([1, 2, n - 1, n, n + 1]) - set([0, -1])):
+            if d > maxdist:
+                continue
+            for k in ks_of(n):
+                pos = (ring - k + d) % ring or ring          # output position at which the copy is issued
+                if pos < d:
+                    pos += ring
+                cm = [L(0x30 + (n + d + k) % 64)]
+                cur = 1
+                # a few distinct bytes so that a wrong source shows, then runs
+                while cur < pos:
+                    step = min(maxlen, pos - cur)
+                    if step >= 3 and cur % 5:
+                        cm.append(C(0, step))
+                        cur += step
+                    else:
+                        cm.append(L((cur * 13 + k) & 0xFF))
+                        cur += 1
+                cm.append(C(d - 1, n))
+                cm += [L(1), L(2)]
+                out.append(("n=%d d=%d k=%d" % (n, d, k), cm))
+    return out
+
+
 # ====================================================================== lzs / lz5
 
 def test_larc(lh, rng, quick, mod, method):
@@ -217,6 +247,9 @@ def test_lh1(lh, rng, quick):
           [C((u << 6) | (u % 64), 3 + u % 58) for u in range(64)] + [C((u << 6) | 63, 3) for u in range(64)] +
           [C(u << 6, 60) for u in range(64)])
     s.add("overlapping copies", E, m, [L(1), C(0, 60), L(2), L(3), C(1, 59), C(0, 3)])
+    for label, cm in seam_overlap_streams(4096, 60, 4096, (3, 60) if quick else (3, 4, 31, 59, 60),
+                                          (lambda n: sorted(set([0, 1, n - 1, n]))) if quick else (lambda n: range(0, n + 2)), quick):
+        s.add("overlap x ring seam " + label, E, m, cm)
     for i in range(30 if quick else 100):
         s.add("random %d" % i, E, m, E.random_cmds(rng, m, rng.randint(1, 5000), lit_prob=rng.choice((0.2, 0.5, 0.9))))
     rebuilds = 0
@@ -327,6 +360,10 @@ def test_lhnew(lh, rng, quick, method):
     add("65535 x one literal in a zero-bit block", [L(0xAA)] * 65535)
     add("65536 x one literal (second block of one)", [L(0xAB)] * 65536)
     add("single offset symbol, many copies", [L(1)] + [C(40 + i % 20, 3 + i % 9) for i in range(300)])
+    if method in ("-lh5-", "-lh4-") and (method == "-lh5-" or not quick):
+        for label, cm in seam_overlap_streams(16384, ML, W, (3, ML) if quick else (3, 4, 128, ML - 1, ML),
+                                              (lambda n: sorted(set([0, 1, n - 1]))) if quick else (lambda n: sorted(set([0, 1, 2, n - 1, n, n + 1]))), quick):
+            add("overlap x ring seam " + label, cm)
     # the 16-bit code really used
     cm = [L(b % 200) for b in range(3000)] + [L(250)]
     info = add("maxlen: rarest symbol gets 16 bits", cm, strategy="maxlen")
